@@ -852,6 +852,8 @@ func (st *c10State) checkTree(rep *kit.Report, t *c10Tree, full bool, single int
 				if again == 3 {
 					pruneThreshold = 0
 				}
+				// the cached result of the first evaluation must not answer the repeat (the cost learned by it stays)
+				invalidateTagCache()
 				itr2, err2 := st.x.idx.SearchSeriesIterator(nil, bname, &query.ProcessorOptions{Condition: t.expr[c10PathSel]})
 				pruneThreshold = savedThreshold
 				var sids2 []uint64
